@@ -2,6 +2,7 @@ import XModel.TableSel
 import XModel.TableSpan
 import XModel.TableTuple
 import XModel.TableFast
+import XModel.TableRangeF
 /-!
 # C08 — row selection follows the documented selector semantics, in table order
 Model: `XModel/Table.lean` (`getRowIndices`, `getRegexpIndices`, `indicesOf`, `maskOf`, `rowsOf`).
@@ -13,8 +14,12 @@ and the correspondence run is repeated under several `PYTHONHASHSEED`s.
 the tree as first pinned; the witnesses are kept (defects D10–D12).
 **What has no formal content here.**  `Match := String → Bool` is an oracle for `re.fullmatch(name, IGNORECASE)`: "case-insensitive
 full-match regular expression" is the harness's job (it computes the match table with Python's `re` and hands it to the
-model on every line).  Value ranges are proved for integer columns only (`C08_value_range` carries `hint`; a slice on a
-float column is a `TypeError` in the model and oracle-only in the check).  `C08_count_selector*` take the parse of the selector
+model on every line).  Value ranges: `C08_value_range(_is)` are about integer columns and integer bounds (the slice selector,
+`valueRange`: anything else a `TypeError` there); columns and bounds that are numbers of any kind — floats, NaN, the
+infinities, a fractional bound on an integer column — are the selector `Sel.range` (`valueRangeF`), specified by
+`C08_value_range_any_order` / `C08_value_range_numbers` and tied to the integer ones by
+`C08_value_range_floats_agree_on_ints`; the driver hands a range to `Sel.range` whenever the column or a bound is not
+an integer.  Numbers are compared by exact value (`XModel/TableNum.lean`), not through Lean's opaque `Float`.  `C08_count_selector*` take the parse of the selector
 as a hypothesis (`hsplit`); the parse itself is characterised in C07 (`split_label`).  Known finding D24 (exact-label fast path
 of count selectors) is characterised exactly by `C08_count_selector_documented_iff`.
 -/
@@ -153,6 +158,136 @@ theorem C08_value_range (lo hi : Option Int) (col : List Cell) (hint : ∀ x ∈
     · rintro ⟨i, v, hx, h1, h2, rfl⟩
       refine ⟨i, .int v, hx, ?_, by simp⟩
       cases lo <;> cases hi <;> simp_all [inRange]
+
+/-! ### value ranges over numbers of any kind: float columns, NaN, infinities, fractional bounds (XModel/TableRangeF.lean) -/
+
+/-- **a value range over ANY comparison of cells** (`le a b = none`: the comparison raises): when every comparison the
+    selection needs is defined, the selected positions are — strictly ascending — exactly the positions `i` with
+    `le lo col[i] = some true` and `le col[i] hi = some true`, for every bound that is given.  Nothing is assumed of `le`
+    (no reflexivity, transitivity, totality), so orders with unordered elements — IEEE's `<=` with NaN — are instances;
+    `valueRange` is the instance `cellLe` (`TableM.valueRange_eq_by`, by `rfl`), `valueRangeF` the instance `cellLeF` -/
+theorem C08_value_range_any_order (le : Cell → Cell → Option Bool) (col : List Cell) (lo hi : Option Cell)
+    (hdef : ∀ x ∈ col, (∀ l, lo = some l → (le l x).isSome = true) ∧ (∀ h, hi = some h → (le x h).isSome = true)) :
+    ∃ r, valueRangeBy le col lo hi = .ok (.idx r) ∧ r.Pairwise (· < ·) ∧
+      ∀ j, j ∈ r ↔ ∃ (i : Nat) (x : Cell), col[i]? = some x ∧
+        (∀ l, lo = some l → le l x = some true) ∧ (∀ h, hi = some h → le x h = some true) ∧ j = (i : Int) :=
+  valueRangeBy_spec le col lo hi hdef
+
+/-- and it fails exactly when some comparison it needs is undefined, with `TypeError` (a string cell in the column:
+    what numpy raises for `'s0' >= 1` on an object column) -/
+theorem C08_value_range_any_order_error (le : Cell → Cell → Option Bool) (col : List Cell) (lo hi : Option Cell) (e : TErr) :
+    valueRangeBy le col lo hi = .error e ↔ e = .typeError ∧ ∃ x ∈ col, rangeOkBy le lo hi x = none :=
+  valueRangeBy_error_iff le col lo hi e
+
+/-- the selector `lo:hi:'col'` whose bounds are numbers of any kind (`Sel.range`, a bound given) is `valueRangeF` — the
+    instance of `valueRangeBy` at `cellLeF` — on that column -/
+theorem C08_value_range_numbers_is (t : Tbl) (m : String → Match) (lo hi : Option Cell) (cname : String) (col : List Cell)
+    (hcol : t.col cname = some col) (hb : lo.isSome = true ∨ hi.isSome = true) :
+    getRowIndices t m (.range lo hi cname) = (t, valueRangeBy cellLeF col lo hi) :=
+  getRowIndices_range t m lo hi cname col hcol hb
+
+/-- **a value range on a column of numbers of any kind** (integer cells, float cells incl. NaN and the infinities; the
+    bounds likewise): exactly the rows whose number `v` satisfies `lo <= v` and `v <= hi` in IEEE's sense (`numLe`: false
+    as soon as a NaN is involved, `-inf` / `+inf` at the ends, finite values by their exact value), ascending -/
+theorem C08_value_range_numbers (col : List Cell) (lo hi : Option Cell)
+    (hcol : ∀ x ∈ col, (cellNum x).isSome = true)
+    (hlo : ∀ l, lo = some l → (cellNum l).isSome = true) (hhi : ∀ h, hi = some h → (cellNum h).isSome = true) :
+    ∃ r, valueRangeF col lo hi = .ok (.idx r) ∧ r.Pairwise (· < ·) ∧
+      ∀ j, j ∈ r ↔ ∃ (i : Nat) (x : Cell) (v : Num), col[i]? = some x ∧ cellNum x = some v ∧
+        (∀ l, lo = some l → ∃ vl, cellNum l = some vl ∧ numLe vl v = true) ∧
+        (∀ h, hi = some h → ∃ vh, cellNum h = some vh ∧ numLe v vh = true) ∧ j = (i : Int) :=
+  valueRangeF_spec col lo hi hcol hlo hhi
+
+/-- **the general range agrees with the integer one on integers**: on an integer column the slice selector with integer
+    bounds and the general range selector return the same (also the `KeyError` of an unknown column and the form without
+    bounds); `valueRangeF = valueRange` there; and wherever `valueRange` answers at all, `valueRangeF` gives that answer —
+    so `C08_value_range` transfers, and "try `valueRange`, fall back to `valueRangeF` on `TypeError`" is `valueRangeF` -/
+theorem C08_value_range_floats_agree_on_ints :
+    (∀ (t : Tbl) (m : String → Match) (lo hi : Option Int) (cname : String),
+      (∀ col, t.col cname = some col → ∀ x ∈ col, ∃ i, x = Cell.int i) →
+      getRowIndices t m (.slice (boundOf lo) (boundOf hi) (.str cname)) =
+        getRowIndices t m (.range (lo.map Cell.int) (hi.map Cell.int) cname)) ∧
+    (∀ (lo hi : Option Int) (col : List Cell), (∀ x ∈ col, ∃ i, x = Cell.int i) →
+      valueRangeF col (lo.map Cell.int) (hi.map Cell.int) = valueRange col (lo.map Cell.int) (hi.map Cell.int)) ∧
+    (∀ (col : List Cell) (lo hi : Option Cell) (ix : Ix), valueRange col lo hi = .ok ix → valueRangeF col lo hi = .ok ix) ∧
+    (∀ (col : List Cell) (lo hi : Option Cell),
+      (match valueRange col lo hi with
+       | .error .typeError => valueRangeF col lo hi
+       | r => r) = valueRangeF col lo hi) := by
+  refine ⟨?_, valueRangeF_eq_valueRange_of_ints, valueRangeF_of_valueRange_ok, valueRangeX_eq⟩
+  intro t m lo hi cname hint
+  have h := getRowIndices_slice_eq_range t m lo hi cname hint
+  cases lo <;> cases hi <;> exact h
+
+/-- **an element unordered with the bounds is never selected**, for any comparison: if the cell at position `i` does not
+    compare `some true` with any cell, neither as the smaller nor as the larger one, and a bound is given, `i` is not selected -/
+theorem C08_value_range_unordered_never_selected (le : Cell → Cell → Option Bool) (col : List Cell) (lo hi : Option Cell)
+    (hb : lo.isSome = true ∨ hi.isSome = true) (i : Nat) (x : Cell) (hx : col[i]? = some x)
+    (hun : ∀ b, le b x ≠ some true ∧ le x b ≠ some true) (r : List Int)
+    (hok : valueRangeBy le col lo hi = .ok (.idx r)) : (i : Int) ∉ r :=
+  unordered_never_selected le col lo hi hb i x hx hun r hok
+
+/-- **a NaN row is in no value range that has a bound**: `v <= v` fails for the cell's number — which says `v` is NaN
+    (`TableM.numLe_self_eq_false_iff`; the token `nan` reads as NaN: `cellNum (.flt "nan") = some .nan`) -/
+theorem C08_value_range_nan_never_selected (col : List Cell) (lo hi : Option Cell)
+    (hb : lo.isSome = true ∨ hi.isSome = true) (i : Nat) (x : Cell) (v : Num) (hx : col[i]? = some x)
+    (hv : cellNum x = some v) (hnan : numLe v v = false) (r : List Int)
+    (hok : valueRangeF col lo hi = .ok (.idx r)) : (i : Int) ∉ r :=
+  nan_never_selected col lo hi hb i x v hx hv hnan r hok
+
+/-- a NaN bound selects nothing -/
+theorem C08_value_range_nan_bound (col : List Cell) (lo hi : Option Cell) (b : Cell) (hbn : cellNum b = some .nan)
+    (hb : lo = some b ∨ hi = some b) (r : List Int) (hok : valueRangeF col lo hi = .ok (.idx r)) : r = [] :=
+  nan_bound_selects_nothing col lo hi b hbn hb r hok
+
+/-- the same selection through Lean's IEEE doubles (`Float.ofScientific`, `Float.le`) is one more instance of
+    `C08_value_range_any_order`; nothing about IEEE arithmetic enters the proof -/
+theorem C08_value_range_ieee (col : List Cell) (lo hi : Option Cell)
+    (hcol : ∀ x ∈ col, (cellNum x).isSome = true)
+    (hlo : ∀ l, lo = some l → (cellNum l).isSome = true) (hhi : ∀ h, hi = some h → (cellNum h).isSome = true) :
+    ∃ r, valueRangeBy cellLeIEEE col lo hi = .ok (.idx r) ∧ r.Pairwise (· < ·) ∧
+      ∀ j, j ∈ r ↔ ∃ (i : Nat) (x : Cell), col[i]? = some x ∧
+        (∀ l, lo = some l → cellLeIEEE l x = some true) ∧ (∀ h, hi = some h → cellLeIEEE x h = some true) ∧
+        j = (i : Int) :=
+  valueRangeIEEE_spec col lo hi hcol hlo hhi
+
+section range_instances
+attribute [local instance] TableM.decEqRangeResult
+
+/-- the hypotheses of `C08_value_range_numbers` hold of a float column with NaN and both infinities, an integer lower
+    bound and a fractional upper bound; the selection is rows 1 and 3 (NaN, `inf`, `-inf` and `2.75` left out) -/
+example : (∀ x ∈ [Cell.flt "nan", .flt "1.0", .flt "inf", .flt "2.5", .flt "-inf", .flt "2.75"], (cellNum x).isSome = true) ∧
+    (cellNum (.int 0)).isSome = true ∧ (cellNum (.flt "2.5")).isSome = true ∧
+    valueRangeF [.flt "nan", .flt "1.0", .flt "inf", .flt "2.5", .flt "-inf", .flt "2.75"] (some (.int 0)) (some (.flt "2.5")) =
+      .ok (.idx [1, 3]) := by decide
+
+/-- the hypotheses of `C08_value_range_nan_never_selected`: the token `nan` reads as a number that is not `<=` itself -/
+example : cellNum (.flt "nan") = some .nan ∧ numLe .nan .nan = false ∧
+    valueRangeF [.flt "nan", .flt "0.0"] none (some (.flt "inf")) = .ok (.idx [1]) ∧
+    valueRangeF [.flt "nan", .flt "0.0"] (some (.flt "-inf")) none = .ok (.idx [1]) := by decide
+
+/-- what the integer model could not express: a fractional bound on an integer column; the one-sided forms with an
+    infinite bound; a `TypeError` where a cell is a string -/
+example : valueRangeF [.int 0, .int 1, .int 2, .int 3] (some (.flt "0.5")) (some (.flt "2.5")) = .ok (.idx [1, 2]) ∧
+    valueRangeF [.int 0, .int 1] (some (.flt "inf")) none = .ok (.idx []) ∧
+    valueRangeF [.int 0, .str "s0"] (some (.int 0)) none = .error .typeError ∧
+    valueRange [.flt "1.0"] (some (.int 0)) none = .error .typeError := by decide
+
+/-- `C08_value_range_unordered_never_selected` on a comparison that is not IEEE's: `TableM.chainLe` orders the integer
+    cells except `9`, which is comparable with nothing -/
+example : (∀ b, chainLe b (.int 9) ≠ some true ∧ chainLe (.int 9) b ≠ some true) ∧
+    valueRangeBy chainLe [.int 2, .int 9, .int 0, .int 1] (some (.int 1)) none = .ok (.idx [0, 3]) := by
+  refine ⟨fun b => ⟨?_, by simp [chainLe]⟩, by decide⟩
+  unfold chainLe; split <;> simp_all
+
+/-- the composition law and the mask / indices / rows theorems are stated for every `Sel`, so they hold of `Sel.range`
+    as they stand; an instance: the float range first, then a position inside the view -/
+example : (rowsOf ⟨"name", ["name", "z"],
+      [("name", [.str "a", .str "b", .str "c"]), ("z", [.flt "nan", .flt "2.0", .flt "-inf"])], none, "::", "<<", ">>"⟩
+    (fun _ _ => false) (.tuple [.range none (some (.flt "2.5")) "z", .pos 1])).2.toOption.map (·.indexCol) = some ["c"] := by
+  decide
+
+end range_instances
 
 /-- **`rows[s1, s2] = rows[s1].rows[s2]` on the data**: the rows at positions `ps2` of the view at positions
     `ps1` are the rows at positions `ps1[ps2]` of the table -/
